@@ -415,7 +415,7 @@ def run(ctx):
                         ctx.observe(case, run_case(case, st_, keep=True), True, ["offset-enumeration"])
             ctx.exhaustive = True
             return
-        ctx.search(case_strategy(), lambda c: run_case(c, st_, keep=True), ctx.n(250, 4000), nontrivial=_nontrivial, labels=_labels,
+        ctx.search(case_strategy(), lambda c: run_case(c, st_, keep=True), ctx.n(600, 4000), nontrivial=_nontrivial, labels=_labels,
                    name="replies" + st_, max_rounds=3, shrink_budget_s=30)
     finally:
         _teardown()
